@@ -309,6 +309,35 @@ def harness_run(ctx, mode, n, profile='default', extra=(), tag=None):
     return read_cases(impl), read_cases(model)
 
 
+
+def flat_run(ctx, mode, n):
+    """Helper modes (one record per line, no cases): harness lines and the model's line for each."""
+    impl = os.path.join(ctx.dir, 'flat-impl-%s-%d.txt' % (mode, n))
+    model = os.path.join(ctx.dir, 'flat-model-%s-%d.txt' % (mode, n))
+    if not (os.path.exists(impl) and os.path.exists(model)):
+        hb, log = build_harness(ctx)
+        if hb is None:
+            ctx.violations.append(('harness does not build against /repo', write_replay(ctx, 'harness_build.txt', log[-6000:]), False))
+            return None, None
+        p = subprocess.run([hb, mode, '-seed', str(ctx.seed), '-n', str(n)], stdout=subprocess.PIPE, stderr=subprocess.PIPE,
+                           text=True, timeout=3600, env=dict(os.environ, GOMEMLIMIT='8GiB'))
+        if p.returncode != 0:
+            ctx.violations.append(('harness crashed in mode %s (exit %d)' % (mode, p.returncode),
+                                   write_replay(ctx, 'harness_crash.txt', (p.stdout[-3000:] + p.stderr[-6000:])), False))
+            return None, None
+        open(impl, 'w').write(p.stdout)
+        ok, log = lean_build(('njmodel',))
+        if not ok:
+            ctx.violations.append(('model driver does not build', write_replay(ctx, 'lean_build_failed.txt', log[-6000:]), False))
+            return None, None
+        with open(impl) as inp, open(model + '.tmp', 'w') as out:
+            p = subprocess.run([model_bin()], stdin=inp, stdout=out, stderr=subprocess.PIPE, text=True, timeout=3600)
+        if p.returncode != 0:
+            ctx.violations.append(('model driver crashed', write_replay(ctx, 'model_crash.txt', p.stderr[-6000:]), False))
+            return None, None
+        os.rename(model + '.tmp', model)
+    return [l for l in open(impl).read().split('\n') if l], [l for l in open(model).read().split('\n') if l]
+
 # ---------------------------------------------------------------- known findings
 
 def load_known():
@@ -343,8 +372,9 @@ def finish(ctx, level, obligations, discharged, details, rule, extra_cov=None):
         'coverage': cov, 'assumptions': ctx.assumptions, 'wall_s': round(time.time() - ctx.t0, 2),
         'violations': len(ctx.violations),
     }
-    os.makedirs(os.path.join(VERIF, 'evidence'), exist_ok=True)
-    with open(os.path.join(VERIF, 'evidence', ctx.prop + '.json'), 'w') as fh:
+    evdir = os.environ.get('VERIF_EVIDENCE_DIR') or os.path.join(VERIF, 'evidence')   # seeded-change runs write elsewhere
+    os.makedirs(evdir, exist_ok=True)
+    with open(os.path.join(evdir, ctx.prop + '.json'), 'w') as fh:
         json.dump(ev, fh, indent=1)
     ctx.violations.sort(key=lambda v: not v[2])
     for k in ctx.known:
